@@ -231,6 +231,17 @@ fn jobs_for(prop: &str, rng: &mut Rng, case: &Case, input: &[u8], sp: &SpecRun, 
                     for l in [0, 1, 2, 3] {
                         push(b, l, Mode::Unsafe { lo, hi }, &io);
                     }
+                    // "the canonical events" include stopping at a refused / failed operation: the
+                    // unchecked variants of the I/O operations must stop there too
+                    let l = *rng.pick(&[0u32, 1, 2, 3]);
+                    if sp.total_events > 0 {
+                        let k = rng.below(sp.total_events.min(EV_CAP as u64));
+                        let kind = rng.below(sys::FAULT_KINDS.len() as u64) as u8;
+                        let f = Io { input: Some(input.to_vec()), has_output: true, fault: Some(Fault { at: k, err: rng.chance(1, 2), kind, once: rng.chance(1, 3) }) };
+                        push(b, l, Mode::Unsafe { lo, hi }, &f);
+                    }
+                    let f = Io { input: None, has_output: true, fault: None };
+                    push(b, l, Mode::Unsafe { lo, hi }, &f);
                 }
             }
         }
@@ -294,6 +305,17 @@ fn jobs_for(prop: &str, rng: &mut Rng, case: &Case, input: &[u8], sp: &SpecRun, 
                 if halted {
                     let f = Io { input: Some(input.to_vec()), has_output: false, fault: None };
                     push(b, l, Mode::Exec, &f);
+                }
+                // failure under unchecked execution too (region taken from the complete canonical run)
+                if halted && matches!(b, Backend::BcInt | Backend::Jit) {
+                    let len = case.code.chars().count() as isize;
+                    let (lo, hi) = (sp.lo as isize - len, sp.hi as isize + len + 1);
+                    for &k in ks.iter().take(6) {
+                        let f = Io { input: Some(input.to_vec()), has_output: true, fault: Some(Fault { at: k, err: rng.chance(1, 2), kind: rng.below(sys::FAULT_KINDS.len() as u64) as u8, once: false }) };
+                        push(b, l, Mode::Unsafe { lo, hi }, &f);
+                    }
+                    let f = Io { input: None, has_output: true, fault: None };
+                    push(b, l, Mode::Unsafe { lo, hi }, &f);
                 }
                 // failure under limited execution too
                 if let Some(&k) = ks.first() {
@@ -1028,7 +1050,14 @@ pub fn c05(args: &Args) -> i32 {
             let bits = if let Some(&b) = corpus.bits.get(&it.0) { b } else if it.1.is_some() { 8 } else { *rng.pick(&[8u32, 8, 16, 32]) };
             Case { code: it.0.clone(), bits, family: Family::Corpus, fixed_input: it.1.clone() }
         } else if halting_only {
-            gen_case("C02", &mut rng, &corpus, args.thorough)
+            if rng.chance(1, 2) {
+                // loops that are entered at least once (no entry test in the generated code): where a
+                // miscompiled back edge turns a finite loop into an infinite one
+                let bits = pick_bits(&mut rng, false);
+                Case { code: gen::structured_once_loops(&mut rng, bits <= 16, 150), bits, family: Family::Structured, fixed_input: None }
+            } else {
+                gen_case("C02", &mut rng, &corpus, args.thorough)
+            }
         } else {
             gen_case(prop, &mut rng, &corpus, args.thorough)
         };
